@@ -20,7 +20,7 @@ CHECKS = {
         technique="stateless model checking of the implementation: controlled scheduler + preemption-bounded (quick) / unbounded (thorough) DFS over all interleavings",
         level_text="Every interleaving (quick: <=2 preemptions; thorough: all) of the real ingestion workers applying 2-3 back-to-back updates of one alert is executed on the real provider+dispatcher and the group copy is compared with the provider copy; a concurrency-1 variant discriminates other causes.",
         level_note="Trusted: sync shims, synctest virtual time, race-freedom of hooked packages. Bounds: 2-3 updates, one alert, one route, 1/2/4 workers.",
-        units=[dict(pkg="dispatch", test="TestVerifC14", gomaxprocs=1, shards_quick=4, shards_thorough=16, budget_quick=60, budget_thorough=900),
+        units=[dict(pkg="dispatch", test="TestVerifC14", gomaxprocs=1, shards_quick=4, shards_thorough=16, budget_quick=150, budget_thorough=900),
                dict(pkg="dispatch", test="TestVerifRaceDispatch", race=True, shards=1, budget_quick=30, budget_thorough=120, env={"VERIF_RACE_PROP": "C14"})],
     ),
 }
@@ -80,7 +80,8 @@ CHECKS["C12"] = dict(
     assumptions=E1_ASSUME,
     units=[dict(pkg="api/v2", test="TestVerifC12", shards_quick=16, shards_thorough=16, budget_quick=90, budget_thorough=1200),
            dict(pkg="silence", test="TestVerifC12Validate", shards_quick=1, shards_thorough=1, budget_quick=60, budget_thorough=300),
-           dict(pkg="silence", test="TestVerifC12Fetched", shards_quick=1, shards_thorough=1, budget_quick=60, budget_thorough=300)],
+           dict(pkg="silence", test="TestVerifC12Fetched", shards_quick=1, shards_thorough=1, budget_quick=60, budget_thorough=300),
+           dict(pkg="silence", test="TestVerifC12Sizes", shards_quick=1, shards_thorough=1, budget_quick=120, budget_thorough=600)],
 )
 
 CHECKS["C09"] = dict(
